@@ -1,6 +1,6 @@
 (** C16 — facts about the tables extracted from the pybrops source (Gen/C16_Fields.v) and witnesses by computation. *)
 From Coq Require Import String Ascii.
-From PV Require Import Lib.Common Lib.C16_Spec Model.C16_Store Model.C16_Heap Gen.C16_Fields Proofs.C16_Utf8 Proofs.C16_Store.
+From PV Require Import Lib.Common Lib.C16_Spec Model.C16_Store Model.C16_Heap Gen.C16_Fields Proofs.C16_Utf8 Proofs.C16_Store Proofs.C16_Nested.
 Local Open Scope Z_scope.
 
 Definition persistable : list cls_spec := filter (fun s => negb (String.eqb (h5_def s) "")) all_specs.
@@ -21,6 +21,10 @@ Lemma tables_copied_superset : forallb copied_superset all_specs = true. Proof. 
 Lemma tables_deep_is_deep : forallb (deep_is_deep shared_ok) all_specs = true. Proof. vm_compute. reflexivity. Qed.
 Lemma tables_shallow_copies : forallb (shallow_copies shared_ok) all_specs = true. Proof. vm_compute. reflexivity. Qed.
 Lemma tables_flat : forallb flat_spec flat_classes = true. Proof. vm_compute. reflexivity. Qed.
+
+Lemma tables_gen : forallb gen_spec persistable = true. Proof. vm_compute. reflexivity. Qed.
+Lemma gen_spec_of s : In s persistable -> gen_spec s = true.
+Proof. intro H. pose proof tables_gen as T. rewrite forallb_forall in T. exact (T s H). Qed.
 
 Lemma flat_spec_of s : In s flat_classes -> flat_spec s = true.
 Proof. intro H. pose proof tables_flat as T. rewrite forallb_forall in T. exact (T s H). Qed.
@@ -77,3 +81,13 @@ Lemma none_hyperparam_dropped :
   exists f1, to_hdf5 VCur spec_ALGM [] (Some [109]) (w_model [([107], None)]) true = (f1, None)
     /\ from_hdf5 spec_ALGM 1 f1 (Some [109]) = inl (w_model []).
 Proof. eexists. split; [vm_compute; reflexivity|]. vm_compute. reflexivity. Qed.
+
+(** a model with hyper-parameters (float, int, str, bytes, array) meets the hypotheses of the general round trip *)
+Definition w_hyper : list (str * option sval) :=
+  [([97], Some (VFloat 4609434218613702656)); ([110], Some (VInt 7)); ([107], Some (VStr [114; 228])); ([98], Some (VBytes [255; 1]));
+   ([118], Some (VArr TF64 [2] [0; 4607182418800017408]))].
+Lemma w_model_wf : wf_obj spec_ALGM (w_model w_hyper) = true /\ In spec_ALGM persistable /\ Forall (fun kv => snd kv <> None) w_hyper
+  /\ exists f', write_all VCur spec_ALGM [] (Some [109]) [w_model [([120], Some (VInt 1))]; w_model w_hyper] = (f', None).
+Proof.
+  split; [vm_compute; reflexivity|]. split; [vm_compute; tauto|]. split; [repeat constructor; discriminate|]. eexists. vm_compute. reflexivity.
+Qed.
